@@ -74,6 +74,58 @@ def gen_ops(tier, rng):
                     fs = rng.choice([-1, rng.randrange(d + p)])
                     subs.append(f"v {size} {rng.randrange(1, 1<<20)} {fs} {rng.randrange(size)}")
             ops.append((f"hist {fam} {opts} {d} {p} ; " + " ; ".join(subs), {"cat": f"long-{fam}", "n": len(subs)}))
+    # GF8 locator cache forced on large shard counts: erasure sets that differ in ONE index anywhere in 0..d+p
+    for (d, p) in [(200, 32), (128, 128), (180, 64), (100, 30), (60, 4), (251, 4)]:
+        m = 1
+        while m < p:
+            m *= 2
+        if d + m > 256:
+            continue
+        for _ in range(8 if tier == "quick" else 120):
+            k = rng.randint(1, min(p, 4))
+            E1 = sorted(rng.sample(range(d + p), k))
+            subs = []
+            for _ in range(rng.randint(3, 6)):
+                E2 = list(E1)
+                E2[rng.randrange(k)] = rng.randrange(d + p)      # one index replaced, anywhere
+                E2 = sorted(set(E2))
+                for E in (E1, E2):
+                    subs.append(sub_r(rng, d, p, 64, E, rng.choice(["all", "data"]), []))
+            ops.append((f"hist leo8 ic+ {d} {p} ; " + " ; ".join(subs), {"cat": "forced-cache-leo8", "n": len(subs)}))
+    # unit level: the cache key is the complete erasure set (bit i of 256)
+    for _ in range(200 if tier == "quick" else 5000):
+        pos = sorted(rng.sample(range(256), rng.choice([1, 1, 2, 3, 8, 40])))
+        ops.append((f"bfkey {lst(pos)}", {"cat": "bfkey", "n": 2}))
+    for i in range(256):
+        ops.append((f"bfkey {i}", {"cat": "bfkey", "n": 2}))
+    return ops + tree_ops(tier, rng)
+
+
+def tree_ops(tier, rng):
+    """unit-level tie of the trie model: random insert/get sequences with strictly increasing keys,
+    biased towards neighbouring keys ([a,b] vs [a,b+1], prefixes, shared first index)"""
+    ops = []
+    for _ in range(150 if tier == "quick" else 3000):
+        d = rng.randint(2, 10); p = rng.randint(1, 6); n = d + p
+        keys = []
+        for _ in range(rng.randint(2, 6)):
+            k = sorted(rng.sample(range(n), rng.randint(1, min(p, n))))
+            keys.append(k)
+            if rng.random() < 0.7:      # a neighbour: shift the tail by one
+                k2 = k[:1] + [min(n - 1, x + 1) for x in k[1:]]
+                if k2 == sorted(set(k2)):
+                    keys.append(k2)
+            if rng.random() < 0.3 and len(k) > 1:
+                keys.append(k[:-1])
+        subs, tag = [], 1
+        for _ in range(rng.randint(6, 20)):
+            k = rng.choice(keys)
+            if rng.random() < 0.45:
+                subs.append(f"i {lst(k)} {tag}"); tag = tag % 250 + 1
+            else:
+                subs.append(f"g {lst(k)}")
+        subs += [f"g {lst(k)}" for k in keys] + ["g -"]
+        ops.append((f"tree {d} {p} ; " + " ; ".join(subs), {"cat": "tree", "n": 2}))
     return ops
 
 
